@@ -205,7 +205,7 @@ class Project(object):
                     break
 
             if not parts:
-                raise Exception('Not a package: {} ({})'.format(filename, package))
+                raise ImportError('Not a package: {} ({})'.format(filename, package))
 
             self._norm_cache[key] = parts
 
